@@ -328,6 +328,19 @@ func (p *pather) path1(v ssa.Value, d int) string {
 					}
 				}
 			}
+			// a local captured by a closure carries the (canonical) name of that closure's free variable
+			if refs := x.Referrers(); refs != nil {
+				for _, ref := range *refs {
+					if mc, ok := ref.(*ssa.MakeClosure); ok {
+						fn := mc.Fn.(*ssa.Function)
+						for i, b := range mc.Bindings {
+							if b == ssa.Value(x) && i < len(fn.FreeVars) {
+								return fvname(fn.FreeVars[i])
+							}
+						}
+					}
+				}
+			}
 			return x.Comment
 		}
 		return fmt.Sprintf("new(%s)", typeShort(x.Type().Underlying().(*types.Pointer).Elem()))
